@@ -181,6 +181,13 @@ SOLO_COMPOSITES = [
                                       obj({"B": obj({"v": obj({"y": STR}, ["y"])}, ["v"])}, ["B"], additionalProperties=False)]}),
     L("untagged_arr_tuple", {"anyOf": [{"type": "array", "items": INT, "maxItems": 1},
                                        {"type": "array", "items": [INT, INT], "minItems": 2, "maxItems": 2}]}, ff=False),
+    L("untagged_tuples_f64", {"oneOf": [{"type": "array", "items": [{"type": "number"}, {"type": "number"}], "minItems": 2, "maxItems": 2},
+                                        {"type": "array", "items": [{"type": "number"}, {"type": "number"}, {"type": "number"}], "minItems": 3, "maxItems": 3}]}),
+    L("ext_tuple_f64", {"oneOf": [{"type": "string", "enum": ["origin", "center"]},
+                                  obj({"at": {"type": "array", "items": [STR, {"type": "number"}], "minItems": 2, "maxItems": 2}}, ["at"], additionalProperties=False)]}),
+    L("enum_f64_payload", {"oneOf": [obj({"F": {"type": "number"}}, ["F"], additionalProperties=False), {"type": "string", "enum": ["U"]}]}),
+    L("never", {"allOf": [{"type": "string"}, {"type": "integer"}]}, ff=False),
+    L("newtype_f64", {"type": "number", "minimum": 0}),
     L("nested_opt_struct", obj({"o": obj({"i": obj({"x": INT}, ["x"])}, ["i"])})),
     L("struct_extra_member", obj({"extra": INT}, ["extra"], additionalProperties=STR), enf=False),
     L("vec_vec", {"type": "array", "items": {"type": "array", "items": INT}}),
@@ -237,7 +244,7 @@ def shapes_depth2(tier):
     out = []
     leaves = [LEAF[i] for i in QUICK_LEAVES] if tier == "quick" else LEAVES
     out.extend(leaves)
-    kleaves = ["string", "str_max2"] if tier == "quick" else ["string", "integer", "str_max2", "enum_ab", "uuid", "any"]
+    kleaves = ["string", "str_max2"] if tier == "quick" else ["string", "integer", "number", "str_max2", "enum_ab", "uuid", "any"]
     seen = set()
     for lid in kleaves:
         for k in composites(LEAF[lid]):
